@@ -19,6 +19,8 @@ const (
 	kfMergeVPhys  = "KF-C09-vmerge-physical"
 	kfIter        = "KF-C09-iter-row0"
 	kfCopy        = "KF-C09-copytable"
+	kfDelColEmpty = "KF-C09-delcol-empties-row"
+	kfAppColRow0  = "KF-C09-appendcol-row0"
 )
 
 func marked(id string) func(Case, kit.Failure) bool {
@@ -40,6 +42,10 @@ var findings = []kit.Finding[Case]{
 		Desc: "MergeCellsVertical (also as part of MergeCellsRange) and the vertical part of UnmergeCells address physical cell indexes, not grid columns: on rows of different shape the continuation ends up under a cell at another grid column / with another span, or is left behind by unmerge"},
 	{ID: kfIter, Clause: "C09.G5", Trigger: marked(kfIter),
 		Desc: "NewCellIterator/ForEach/FindCells/ForEachInRow size every row from row 0: on rows of different physical length they fail half-way or skip cells"},
+	{ID: kfDelColEmpty, Clause: "C09.G3.nonempty", Trigger: marked(kfDelColEmpty),
+		Desc: "DeleteColumn/DeleteColumns check 'at least one column must remain' against row 0 only: on a table read from a file whose later row has no more cells than the call deletes (ragged rows) the call succeeds and leaves that row without any cell"},
+	{ID: kfAppColRow0, Clause: "C09.G4.cols", Trigger: marked(kfAppColRow0),
+		Desc: "AppendColumn takes 'the end of the table' from the number of cells of row 0: on a table read from a file in which another row has more cells than row 0 (ragged rows) the new cell is inserted into the middle of the longer rows and their existing cells move one column to the right"},
 	{ID: kfCopy, Clause: "C09.G6", Trigger: marked(kfCopy),
 		Desc: "CopyTable shares Properties, Grid, row/cell/paragraph/run property pointers with the original, drops nested tables and xml:space: the copy is neither equal nor independent"},
 }
